@@ -1,5 +1,6 @@
 import Qentem.Proofs.NumToStrInt
 import Qentem.Proofs.NumToStrBits
+import Qentem.Proofs.NumToStrDigits
 /-! Helper lemmas for C10: integer-valued doubles (in particular every double of magnitude ≥ 2^52)
 print the reference text in the Fixed and SemiFixed formats.  The digit run is computed exactly
 (`digitRun_int64`), `bigIntToString` yields its reversed digits, and `formatStringNumberFixed`
@@ -7,38 +8,6 @@ without a fraction only reverses them and (Fixed) appends the point and the zero
 set_option linter.unusedSimpArgs false
 namespace Qentem.Proofs.NumToStr
 open Qentem.NumToStr Qentem.Generated.NumToStr Qentem
-
-theorem findFirstBitLoop_spec : ∀ (j fuel n k : Nat), n % 2 ^ j = 0 → (n / 2 ^ j) % 2 = 1 → j < fuel →
-    findFirstBitLoop fuel n k = k + j := by
-  intro j
-  induction j with
-  | zero =>
-    intro fuel n k _ h1 hf
-    obtain ⟨f, rfl⟩ := Nat.exists_eq_succ_of_ne_zero (by omega : fuel ≠ 0)
-    simp at h1
-    simp [findFirstBitLoop, h1]
-  | succ j ih =>
-    intro fuel n k h0 h1 hf
-    obtain ⟨f, rfl⟩ := Nat.exists_eq_succ_of_ne_zero (by omega : fuel ≠ 0)
-    have hpow : 2 ^ (j + 1) = 2 * 2 ^ j := by rw [Nat.pow_succ]; ring
-    have h2 : n % 2 = 0 := by
-      have : 2 ∣ n := Dvd.dvd.trans ⟨2 ^ j, hpow⟩ (Nat.dvd_of_mod_eq_zero h0)
-      omega
-    have h3 : (n / 2) % 2 ^ j = 0 := by
-      have : 2 ^ (j + 1) ∣ n := Nat.dvd_of_mod_eq_zero h0
-      obtain ⟨c, rfl⟩ := this
-      rw [hpow, Nat.mul_assoc, Nat.mul_div_cancel_left _ (by norm_num)]
-      exact Nat.mul_mod_right _ _
-    have h4 : (n / 2) / 2 ^ j % 2 = 1 := by
-      rw [Nat.div_div_eq_div_mul, ← hpow]; exact h1
-    rw [findFirstBitLoop]
-    simp only [show ¬ (n % 2 = 1) by omega, if_false]
-    rw [ih f (n / 2) (k + 1) h3 h4 (by omega)]
-    omega
-
-theorem findFirstBit_spec {j n : Nat} (h0 : n % 2 ^ j = 0) (h1 : (n / 2 ^ j) % 2 = 1) (hj : j < 64) :
-    findFirstBit n = j := by
-  simp [findFirstBit, findFirstBitLoop_spec j 64 n 0 h0 h1 hj]
 
 /-- an integer-valued normal double: exponent field `e ≥ 1023`, mantissa `2^52 + f = 2^j · o` with `o` odd
 and no fractional bits left (`52 - j ≤ e - 1023`) -/
@@ -95,7 +64,6 @@ theorem intValue64_small {e f : Nat} (he1 : 1023 ≤ e) (hbig : ¬ 52 < e - 1023
   · have h2 : 1075 - e = 52 - (e - 1023) := by omega
     rw [if_neg h75, h2]
 
-theorem ok_bind {α β : Type} (a : α) (f : α → M β) : (Except.ok a >>= f) = f a := rfl
 
 theorem digitRun_int64 {c : Cfg} (hc : LikeF64 c) {e f j p fmt : Nat} (h : IntValued64 e f j) (hfmt : fmt = 1 ∨ fmt = 2) :
     digitRun c f (e * 2 ^ 52) p fmt = .ok (intValue64 e f, (e - 1023) * 30103 / 100000 + 1, 0, true, false) := by
@@ -107,7 +75,7 @@ theorem digitRun_int64 {c : Cfg} (hc : LikeF64 c) {e f j p fmt : Nat} (h : IntVa
   have hfix : (decide (fmt = fmtSemiFixed) || decide (fmt = fmtFixed)) = true := by
     rcases hfmt with rfl | rfl <;> decide
   have hcs : csub 20 52 j = .ok (52 - j) := by simp [csub, hj, pure, Except.pure]
-  unfold digitRun
+  unfold digitRun runNoFraction
   simp only [c1, c2, c3, hb0, ne_eq, not_false_eq_true, if_true, hm, hfs,
     Nat.shiftRight_eq_div_pow, Nat.mul_div_cancel _ (Nat.two_pow_pos 52), hcs, ok_bind, pure_bind, he1, hfix, hint,
     decide_true, Bool.not_true, Bool.and_false, Bool.or_false, Bool.not_false, Bool.true_and, Bool.or_true, Bool.true_or,
@@ -306,25 +274,6 @@ theorem int_class64 (pre : List Nat) (bits p f j : Nat) (hf12 : f = 1 ∨ f = 2)
     · have : fmtOf 2 = .semiFixed := by decide
       rw [this, s2]
       simp [hsl, FmtSpec.signed]
-
-/-- every positive number is an odd number times a power of two -/
-theorem exists_ctz : ∀ m, 0 < m → ∃ j, m % 2 ^ j = 0 ∧ (m / 2 ^ j) % 2 = 1 := by
-  intro m
-  induction m using Nat.strong_induction_on with
-  | _ m ih =>
-    intro hm
-    by_cases hodd : m % 2 = 1
-    · exact ⟨0, by simp [Nat.mod_one], by simpa using hodd⟩
-    · obtain ⟨j, h1, h2⟩ := ih (m / 2) (by omega) (by omega)
-      refine ⟨j + 1, ?_, ?_⟩
-      · have hpow : 2 ^ (j + 1) = 2 * 2 ^ j := by rw [Nat.pow_succ]; ring
-        have hm2 : m = 2 * (m / 2) := by omega
-        obtain ⟨c, hc⟩ := Nat.dvd_of_mod_eq_zero h1
-        rw [hpow, hm2, hc]
-        rw [show 2 * (2 ^ j * c) = 2 * 2 ^ j * c by ring]
-        exact Nat.mul_mod_right _ _
-      · have hpow : 2 ^ (j + 1) = 2 * 2 ^ j := by rw [Nat.pow_succ]; ring
-        rw [hpow, ← Nat.div_div_eq_div_mul]; exact h2
 
 /-- every double whose exponent field is at least 1075 (magnitude ≥ 2^52) is integer-valued -/
 theorem intValued_of_big {e f : Nat} (he1 : 1075 ≤ e) (he2 : e < 2047) (hf : f < 2 ^ 52) : ∃ j, IntValued64 e f j := by
